@@ -334,7 +334,11 @@ def run(ck):
             all(cfg.ev_dominates(d, rv[0], c) for c in cons if any(x is ig[0] for x in cfg.events_after(g, c))) and \
             lib.guard_dominates(prog, sz, lambda h: newchunk if h.id == cp.id else [])
         ck.ob("C01-R3", "Chunk::parse/size-line-revert-guarded", ok, rv[0].loc if rv else g.loc, g, "Revert; scan; ignore(); size = sz — an incomplete size line is rolled back")
-    pte = lib.single(prog, PR + "BodyStep::parseTransferEncoding")
+    pte0 = lib.single(prog, PR + "BodyStep::parseTransferEncoding")
+    # the chunk loop: in parseTransferEncoding or in a private helper of BodyStep it delegates to
+    ptes = [g_ for g_ in lib.region(prog, pte0, within=lambda g_: g_.cls == pte0.cls and g_.cls) if [e for e in g_.calls(lambda e: (e.get("callee") or "") == PR + "BodyStep::Chunk::parse")]]
+    ck.require(ptes, "chunk.parse not found in parseTransferEncoding or its helpers")
+    pte = ptes[0]
     pc = [e for e in pte.calls(lambda e: (e.get("callee") or "") == PR + "BodyStep::Chunk::parse")]
     rs = [e for e in pte.calls(lambda e: (e.get("callee") or "") == PR + "BodyStep::Chunk::reset")]
     ck.require(pc and rs, "chunk.parse / chunk.reset not found in parseTransferEncoding")
